@@ -9,6 +9,7 @@ import (
 	"io"
 	"os"
 	"sync"
+	"syscall"
 
 	"github.com/aws/aws-sdk-go/aws"
 	"github.com/aws/aws-sdk-go/aws/awserr"
@@ -33,6 +34,9 @@ type C18Op struct {
 
 type C18Case struct {
 	Backend string   `json:"backend"` // memory | file | s3fake | gofakes3
+	// Repoint (s3fake): the store is constructed for another bucket and prefix and its exported BucketName / Prefix
+	// fields are then set to the case's bucket and prefix: the configured bucket is what the fields say
+	Repoint bool `json:"repoint,omitempty"`
 	Bucket  string   `json:"bucket,omitempty"`
 	Prefix  string   `json:"prefix,omitempty"`
 	Names   []string `json:"names"`
@@ -48,6 +52,7 @@ type fakeS3 struct {
 	failPutOnceAfterBody bool // the next PutObject reads the body, then fails (e.g. a lost response); later puts work
 	failGet  bool
 	failBody bool
+	shortBody bool // the body ends early with io.ErrUnexpectedEOF although ContentLength announced everything
 	puts     int
 	gets     int
 }
@@ -55,6 +60,22 @@ type fakeS3 struct {
 var errFakePut = errors.New("fake s3: injected PutObject failure")
 var errFakeGet = errors.New("fake s3: injected GetObject failure")
 var errFakeBody = errors.New("fake s3: injected body read failure")
+
+// shortReader delivers its data and then fails like a connection that dropped mid-body.
+type shortReader struct {
+	data []byte
+	off  int
+}
+
+func (r *shortReader) Read(p []byte) (int, error) {
+	if r.off >= len(r.data) {
+		return 0, io.ErrUnexpectedEOF
+	}
+	n := copy(p, r.data[r.off:])
+	r.off += n
+	return n, nil
+}
+func (r *shortReader) Close() error { return nil }
 
 type failingBody struct{}
 
@@ -82,7 +103,10 @@ func (f *fakeS3) GetObjectWithContext(ctx aws.Context, in *s3.GetObjectInput, op
 	if f.failBody {
 		return &s3.GetObjectOutput{Body: failingBody{}}, nil
 	}
-	return &s3.GetObjectOutput{Body: io.NopCloser(bytes.NewReader(append([]byte(nil), b...)))}, nil
+	if f.shortBody {
+		return &s3.GetObjectOutput{ContentLength: aws.Int64(int64(len(b))), Body: &shortReader{data: append([]byte(nil), b[:len(b)/2]...)}}, nil
+	}
+	return &s3.GetObjectOutput{ContentLength: aws.Int64(int64(len(b))), Body: io.NopCloser(bytes.NewReader(append([]byte(nil), b...)))}, nil
 }
 
 func (f *fakeS3) PutObjectWithContext(ctx aws.Context, in *s3.PutObjectInput, opts ...request.Option) (*s3.PutObjectOutput, error) {
@@ -171,7 +195,11 @@ func genC18(t *rapid.T, tier string) C18Case {
 	}
 	kinds := []string{"store", "store", "store", "restore", "cstore", "load", "load", "load", "loadmissing"}
 	if c.Backend == "s3fake" {
-		kinds = append(kinds, "putfail", "putfailonce", "getfail", "bodyfail")
+		kinds = append(kinds, "putfail", "putfailonce", "getfail", "bodyfail", "bodyshort")
+		c.Repoint = rapid.IntRange(0, 3).Draw(t, "repoint") == 0
+	}
+	if c.Backend == "file" {
+		kinds = append(kinds, "filefault", "filefault")
 	}
 	no := rapid.IntRange(1, 14).Draw(t, "nops")
 	for i := 0; i < no; i++ {
@@ -207,6 +235,10 @@ func runC18(c C18Case, o *run.Obs) error {
 	case "s3fake":
 		fake = &fakeS3{objects: map[string][]byte{}}
 		sp := s3persist.NewPersist(fake, "https://s3.example", c.Bucket, c.Prefix)
+		if c.Repoint {
+			sp = s3persist.NewPersist(fake, "https://s3.example", "template-bucket", "template/")
+			sp.BucketName, sp.Prefix = c.Bucket, c.Prefix
+		}
 		p = &sp
 	case "gofakes3":
 		client, bucket, closer := s3test.Client()
@@ -352,8 +384,59 @@ func runC18(c C18Case, o *run.Obs) error {
 					model[name] = payload
 				}
 			}
-		case "getfail", "bodyfail":
+		case "filefault":
+			// the write is cut by an I/O error (file size limit) inside this process; the same store object is then used again
+			if _, known := model[name]; known || len(payload) < 2 {
+				continue
+			}
+			var old syscall.Rlimit
+			if err := syscall.Getrlimit(syscall.RLIMIT_FSIZE, &old); err != nil {
+				return fmt.Errorf("harness: getrlimit: %w", err)
+			}
+			lim := syscall.Rlimit{Cur: uint64(len(payload) / 2), Max: old.Max}
+			if err := syscall.Setrlimit(syscall.RLIMIT_FSIZE, &lim); err != nil {
+				return fmt.Errorf("harness: setrlimit: %w", err)
+			}
+			serr := p.Store(ctx, name, payload)
+			if err := syscall.Setrlimit(syscall.RLIMIT_FSIZE, &old); err != nil {
+				panic("harness: cannot restore RLIMIT_FSIZE: " + err.Error())
+			}
+			if serr == nil {
+				model[name] = payload
+				if err := load(when+" (Store reported success although the write was cut short)", name); err != nil {
+					return err
+				}
+				continue
+			}
+			if err := load(when+" (after the failed write)", name); err != nil { // not in the model: must not be loadable
+				return err
+			}
+			// the backend error was returned; storing again through the same object must now work
+			if err := p.Store(ctx, name, payload); err != nil {
+				return fmt.Errorf("%s %s: Store(%q) after an earlier failed write failed: %v", desc, when, name, err)
+			}
+			model[name] = payload
+			if err := load(when+" (re-store after a failed write)", name); err != nil {
+				return err
+			}
+		case "getfail", "bodyfail", "bodyshort":
 			if _, ok := model[name]; !ok {
+				continue
+			}
+			if op.Kind == "bodyshort" {
+				if len(model[name]) < 2 {
+					continue
+				}
+				fake.mu.Lock()
+				fake.shortBody = true
+				fake.mu.Unlock()
+				b, err := p.Load(ctx, name)
+				fake.mu.Lock()
+				fake.shortBody = false
+				fake.mu.Unlock()
+				if err == nil {
+					return fmt.Errorf("%s %s: the object body broke off after %d of %d bytes but Load returned %d bytes and no error", desc, when, len(model[name])/2, len(model[name]), len(b))
+				}
 				continue
 			}
 			fake.mu.Lock()
